@@ -166,6 +166,10 @@ func AttrGroupID(id int64) string {
 //
 //	http://www.llvm.org/docs/LangRef.html#identifiers
 func ComdatName(name string) string {
+	// Numeric comdat names are quoted; `$42` is not a valid comdat name token.
+	if allDigits(name) {
+		return `$"` + name + `"`
+	}
 	return "$" + EscapeIdent(name)
 }
 
@@ -232,6 +236,11 @@ const (
 func EscapeIdent(s string) string {
 	replace := false
 	extra := 0
+	// An identifier which starts with a digit but is not a number (e.g. "1abc")
+	// is not a valid bare identifier; it has to be quoted.
+	if len(s) > 0 && strings.IndexByte(decimal, s[0]) != -1 && !allDigits(s) {
+		replace = true
+	}
 	for i := 0; i < len(s); i++ {
 		if strings.IndexByte(tail, s[i]) == -1 {
 			// Check if a replacement is required.
@@ -371,6 +380,19 @@ func Unquote(s string) []byte {
 	// Skip double-quotes.
 	s = s[1 : len(s)-1]
 	return Unescape(s)
+}
+
+// allDigits reports whether s is non-empty and consists of decimal digits only.
+func allDigits(s string) bool {
+	if len(s) == 0 {
+		return false
+	}
+	for i := 0; i < len(s); i++ {
+		if strings.IndexByte(decimal, s[i]) == -1 {
+			return false
+		}
+	}
+	return true
 }
 
 // unhex returns the numeric value represented by the hexadecimal digit b. It
